@@ -166,6 +166,77 @@ def response_facts(repo):
     return out
 
 
+def isolation_facts(repo):
+    """C13: the handler never assigns into self.dataset; the request path keeps no module-level mutable state
+    (no global / nonlocal statement, no store into a module-level container from inside a function);
+    StructureType.__copy__ clones its children, BaseType.__copy__ builds a new object"""
+    out = {"no_self_dataset_writes": False, "no_module_state": False, "copy_clones": False}
+    try:
+        tree = ast.parse(open(os.path.join(repo, "src/pydap/handlers/lib.py")).read())
+        ok = True
+        for c in tree.body:
+            if isinstance(c, ast.ClassDef) and c.name == "BaseHandler":
+                for f in c.body:
+                    if isinstance(f, ast.FunctionDef) and f.name != "__init__":
+                        for n in ast.walk(f):
+                            targets = []
+                            if isinstance(n, ast.Assign):
+                                targets = n.targets
+                            elif isinstance(n, (ast.AugAssign, ast.AnnAssign)):
+                                targets = [n.target]
+                            elif isinstance(n, ast.Delete):
+                                targets = n.targets
+                            for t in targets:
+                                if ast.unparse(t).startswith("self.dataset"):
+                                    ok = False
+        out["no_self_dataset_writes"] = ok
+        files = ["src/pydap/handlers/lib.py", "src/pydap/responses/dods.py", "src/pydap/responses/dds.py", "src/pydap/responses/das.py",
+                 "src/pydap/responses/ascii.py", "src/pydap/responses/lib.py", "src/pydap/wsgi/ssf.py", "src/pydap/wsgi/functions.py",
+                 "src/pydap/parsers/__init__.py"]
+        ok = True
+        for fn in files:
+            tree = ast.parse(open(os.path.join(repo, fn)).read())
+            module_names = set()
+            for st in tree.body:
+                if isinstance(st, ast.Assign):
+                    for t in st.targets:
+                        if isinstance(t, ast.Name):
+                            module_names.add(t.id)
+            for f in ast.walk(tree):
+                if isinstance(f, (ast.FunctionDef, ast.Lambda)):
+                    for n in ast.walk(f):
+                        if isinstance(n, (ast.Global, ast.Nonlocal)):
+                            ok = False
+                        targets = []
+                        if isinstance(n, ast.Assign):
+                            targets = n.targets
+                        elif isinstance(n, ast.AugAssign):
+                            targets = [n.target]
+                        for t in targets:
+                            base = t
+                            while isinstance(base, (ast.Subscript, ast.Attribute)):
+                                base = base.value
+                            if isinstance(t, (ast.Subscript, ast.Attribute)) and isinstance(base, ast.Name) and base.id in module_names:
+                                ok = False
+                        if isinstance(n, ast.Call) and isinstance(n.func, ast.Attribute) and isinstance(n.func.value, ast.Name) \
+                                and n.func.value.id in module_names and n.func.attr in ("append", "update", "add", "pop", "clear",
+                                                                                        "extend", "setdefault", "insert", "remove"):
+                            ok = False
+        out["no_module_state"] = ok
+        tree = ast.parse(open(os.path.join(repo, "src/pydap/model.py")).read())
+        sc = find_method(tree, "StructureType", "__copy__")
+        bc = find_method(tree, "BaseType", "__copy__")
+        s_ok = sc is not None and any(isinstance(n, ast.Call) and ast.unparse(n.func) == "copy.copy" for n in ast.walk(sc)) \
+            and any(isinstance(n, ast.Call) and ast.unparse(n.func) in ("type(self)", "self.__class__", "self.__shallowcopy__")
+                    for n in ast.walk(sc))
+        b_ok = bc is not None and any(isinstance(n, ast.Call) and ast.unparse(n.func) in ("type(self)", "self.__class__", "BaseType")
+                                      for n in ast.walk(bc))
+        out["copy_clones"] = bool(s_ok and b_ok)
+    except Exception:
+        pass
+    return out
+
+
 SESSION_CALLEES = {"SequenceProxy", "BaseProxyDap2", "BaseProxyDap4", "ServerFunction", "ServerFunctionResult",
                    "DAPHandler", "open_dods_url", "GET", "self.__class__", "Functions"}
 
@@ -228,6 +299,9 @@ def main():
     rf = response_facts(REPO)
     for k in ("dds_iter", "dods_iter", "ascii_iter", "call_one_dataset"):
         lines.append("Definition fact_%s := %s." % (k, str(rf[k]).lower()))
+    isf = isolation_facts(REPO)
+    for k in ("no_self_dataset_writes", "no_module_state", "copy_clones"):
+        lines.append("Definition fact_%s := %s." % (k, str(isf[k]).lower()))
     text = "\n".join(lines) + "\n"
     os.makedirs(os.path.dirname(OUT), exist_ok=True)
     old = open(OUT).read() if os.path.exists(OUT) else None
